@@ -59,6 +59,20 @@ DEFS = ['as.buck 1000.0 0.3 32.0', 'as.morse 1.5 2.0 0.75', 'as.lj 0.25 2.5', 'm
         '>0 as.lj 0.5 2.0 >1.0 myform 3.0 0.75',
         'spline(>0 as.zbl 92 8 >=0.6 exp_spline >=1.2 as.buck 1761.775 0.35 0.0)', 'as.buck4 1000.0 0.3 30.0 1.2 2.0 2.6', 'tabf', 'product(as.exponential 2.0 1.5, myform 1.0 1.0)',
         'product(as.polynomial -2.0 1.0, as.buck 1000.0 0.3 32.0)', 'product(myform 1.0 1.0, as.polynomial -3.0 1.0)', 'sum(as.polynomial -1.0 1.0, as.constant 0.0)']
+import math as _math
+# definitions with their meaning written out by hand (ranges, the default '>0' range, a shift below a range, sums)
+INDEPENDENT = {
+    'trans(>=0 as.polynomial 1.0 2.0, as.constant -2.0)': lambda r: 0.0 if r - 2.0 < 0.0 else 1.0 + 2.0 * (r - 2.0),
+    'trans(as.polynomial 1.0 2.0, as.constant -1.5)': lambda r: 0.0 if r - 1.5 <= 0.0 else 1.0 + 2.0 * (r - 1.5),
+    '>=0 as.constant 2.0 >=1.5 as.polynomial 0.5 -0.25 >3.0 as.zero': lambda r: 2.0 if r < 1.5 else (0.5 - 0.25 * r if r <= 3.0 else 0.0),
+    'sum(as.polynomial 0.5 -0.25, >=2.0 as.constant 1.0)': lambda r: 0.5 - 0.25 * r + (1.0 if r >= 2.0 else 0.0),
+    'product(as.polynomial -2.0 1.0, as.bornmayer 3.0 0.5)': lambda r: (-2.0 + r) * 3.0 * _math.exp(-r / 0.5),
+}
+DEFS += sorted(INDEPENDENT)
+def independent_corpus():
+    ds = sorted(INDEPENDENT)
+    return [{'potable': [['Al', 'Al', ds[0]], ['Al', 'Cu', ds[1]], ['Cu', 'Cu', ds[2]]], 'cutoff': 4.0, 'nr': 9, 'labels': ['Al', 'Cu'], 'route': 'configuration'},
+            {'potable': [['Fe', 'Fe', ds[3]], ['Fe', 'Ni', ds[4]]], 'cutoff': 4.0, 'nr': 9, 'labels': ['Fe', 'Ni'], 'route': 'potable'}]
 def gen_potable_case(rng):
     n = rng.choice([1, 2, 3])
     labs, ids, srt = layout.pick_species(rng, rng.randint(1, 3))
@@ -144,7 +158,7 @@ def correspond(ctx):
                'cutoff': 4.0, 'nr': 5, 'labels': ['Fe', 'Ni'], 'route': 'potable'},
               # a factor of a product with a root on a grid row (r = 2): the product's slope there is not zero
               {'potable': [['Al', 'Al', 'product(as.polynomial -2.0 1.0, as.buck 1000.0 0.3 32.0)'], ['Al', 'Cu', 'product(myform 1.0 1.0, as.polynomial -3.0 1.0)']],
-               'cutoff': 4.0, 'nr': 5, 'labels': ['Al', 'Cu'], 'route': 'configuration'}]
+               'cutoff': 4.0, 'nr': 5, 'labels': ['Al', 'Cu'], 'route': 'configuration'}] + independent_corpus()
     pcases += [gen_potable_case(rng) for _ in range(30 if ctx['thorough'] else 8)]
     dis = []
     runs = []
@@ -186,7 +200,11 @@ def correspond(ctx):
             'with_deriv': sum(1 for c in cases for p in c['pots'] if p[2]), 'without_deriv': sum(1 for c in cases for p in c['pots'] if not p[2]),
             'routes': {r: sum(1 for c in allc if c['route'] == r) for r in ('class', 'writePotentials', 'potable', 'configuration')},
             'rows_total': sum((c['nr'] - 1) * len(c.get('pots', c.get('potable'))) for c in allc)}
-    return {'evaluations': len(allc), 'cases': allc, 'nontrivial': core.distinct_count([c for c in allc if c['nr'] >= 4]),
+    # how the numbers are printed (coq/model/NumFormat.v): the cells rendered in this run, edge values and random doubles
+    import fmt_common
+    nfmt, fdis, fdist = fmt_common.check_formats('C01', ctx['rng'], [3], ctx['thorough'])
+    dis = fdis + dis
+    return {'number_format_cells': nfmt, 'number_format': fdist, 'evaluations': nfmt + len(allc), 'cases': allc, 'nontrivial': core.distinct_count([c for c in allc if c['nr'] >= 4]),
             'rule': '1..4 potentials over 1..4 species labels (with/without analytic derivative, recording callables), cutoffs from a decimal lattice and random floats, nr 3..80 (thorough: to 1500), '
                     'through LAMMPS_PairTabulation.write and writePotentials; plus potable models (built-in, custom, modified, multi-range, splined, table forms) through the CLI and Configuration; '
                     'the whole file text is compared with the rendered model; non-trivial = nr >= 4; distinct by canonical JSON',
@@ -264,7 +282,14 @@ def oracle(case):
                 return 'force %r at the range boundary r=%r is neither one-sided slope of the energy (%r, %r)' % (f, x, cands[0], cands[1])
             if abs(f - num) > 2e-5 * max(1.0, abs(num)) + 2e-8: return 'force %r is not minus the slope of the energy (%r) at r=%r' % (f, num, x)
             return None
-        return check_blocks(blocks, [(a, b) for (a, b, _) in case['potable']], case['cutoff'], case['nr'], energy_at, force_ok)
+        fails = check_blocks(blocks, [(a, b) for (a, b, _) in case['potable']], case['cutoff'], case['nr'], energy_at, force_ok)
+        # definitions whose meaning is written out here independently of the implementation: the energy column must be that function
+        for bi, (a, b, d) in enumerate(case['potable']):
+            if d in INDEPENDENT and bi < len(blocks):
+                for (n_, r_, e_, f_) in blocks[bi]['rows']:
+                    w = INDEPENDENT[d](r_)
+                    if abs(e_ - w) > 1e-7 * max(1.0, abs(w)): fails.append('%s-%s : %s -- the row at r=%r holds the energy %r, the definition means %r' % (a, b, d, r_, e_, w)); break
+        return fails
     try: rec, text = run_recorded(case)
     except Exception as e: return ['writer raised %s: %s' % (type(e).__name__, str(e)[:100])]
     try: blocks = parse_lammps(text)
@@ -289,6 +314,7 @@ def oracle(case):
     return check_blocks(blocks, [(a, b) for (a, b, _) in case['pots']], case['cutoff'], case['nr'], energy_at, force_ok)
 
 def search_cases(rng, n):
+    for c in independent_corpus(): yield c
     for k in range(n // 3):
         yield gen_case(rng)
         if k % 6 == 0: yield gen_potable_case(rng)
